@@ -259,6 +259,60 @@ fn c10_filter_multibyte_boundary() {
 }
 
 // ------------------------------------------------------------------------------------------------
+// C10 / C19: the directory listing when the log directory cannot be read (removed externally,
+// or not readable): every caller - the rotation step of the timestamp namings (inside the log call),
+// cleanup, get_highest_index at start, LoggerHandle::existing_log_files - goes through
+// read_dir_related_files. The fault is concrete (ENOENT resp. EACCES from std::fs::read_dir).
+fn stub_read_dir_enoent<P: AsRef<Path>>(_p: P) -> std::io::Result<std::fs::ReadDir> {
+    vs::cell_inc(0);
+    Err(std::io::Error::from_raw_os_error(vs::cell_get(1) as i32))
+}
+fn stub_read_dir_eacces<P: AsRef<Path>>(_p: P) -> std::io::Result<std::fs::ReadDir> {
+    vs::cell_inc(0);
+    Err(std::io::Error::from_raw_os_error(vs::cell_get(1) as i32 + 11))
+}
+// cut: the specification of these instances has no start-time part (TimestampCfg::No); the arm that
+// renders the clock (chrono; pulls every chrono error type into the drop glue of io::Error) is not taken
+fn cut_get_timestamp(cfg: &TimestampCfg) -> Option<String> {
+    match cfg {
+        TimestampCfg::No => None,
+        _ => unreachable!("VERIF-CUT: start-time part requested in an instance without one"),
+    }
+}
+fn listing_dir_unreadable_case() {
+    vs::link_all();
+    vs::cell_set(0, 0);
+    vs::cell_set(1, 2);
+    let spec = family_spec();
+    let v = spec.read_dir_related_files();
+    assert!(v.is_empty());
+    assert!(vs::cell_get(0) == 1);
+    kani::cover!(true, "listing returned");
+    std::mem::forget(spec);
+    std::mem::forget(v);
+}
+// @verif prop=C10,C19 tier=quick timeout=600 replay=dir_gone bounds=spec(basename-b,suffix-l),read_dir-fails-with-ENOENT(concrete-fault)
+// The log directory was removed externally: listing the family's files does not panic and yields no files (the rotation step, cleanup and existing_log_files all list through this function).
+#[kani::proof]
+#[kani::unwind(3)]
+#[kani::stub(verif_support::reexp::catch_unwind, verif_support::stub_cu)]
+#[kani::stub(TimestampCfg::get_timestamp, cut_get_timestamp)]
+#[kani::stub(std::fs::read_dir, stub_read_dir_enoent)]
+fn c10_listing_dir_gone() {
+    listing_dir_unreadable_case();
+}
+// @verif prop=C10,C19 tier=quick timeout=600 replay=dir_gone bounds=spec(basename-b,suffix-l),read_dir-fails-with-EACCES(concrete-fault)
+// The same for a directory that cannot be read (EACCES).
+#[kani::proof]
+#[kani::unwind(3)]
+#[kani::stub(verif_support::reexp::catch_unwind, verif_support::stub_cu)]
+#[kani::stub(TimestampCfg::get_timestamp, cut_get_timestamp)]
+#[kani::stub(std::fs::read_dir, stub_read_dir_eacces)]
+fn c10_listing_dir_unreadable() {
+    listing_dir_unreadable_case();
+}
+
+// ------------------------------------------------------------------------------------------------
 // C06 / C10 / C14: collision_free_infix_for_rotated_file (timestamp namings): the name of the file
 // that is about to be created by a rotation must not collide with an existing plain or compressed
 // file, must continue the `.restart-NNNN` numbering of *this* family and infix only, and must not
